@@ -133,8 +133,8 @@ def oracle(case, out):
 class C02(DrvProp):
     pid = "C02"
     manifest = dict(
-        text="Coq proofs that a result is stored at most once per operation in every reachable state of the driver LTS and that the submission-queue overflow loop is lossless for every capacity >= 1 and every entry sequence; tied to the code by history acceptance (extracted LTS) and an oracle that checks which bytes went to which operation on the real driver (distinct payloads, harness-chosen readiness order, SQ capacities 1..1024, both drivers).",
-        note="Partial: what the OS did for an operation is an environment input; routing of the OS result to its own operation is checked on the real driver by the oracle (FINAL result = stored result, chunks of a stream never overlap or swap), not proved. Known finding (not yet re-checked by this harness): polling driver multi-descriptor ops with out-of-order readiness (Splice) — such ops are not generated. No axioms.",
+        text="Coq proofs that a result is stored at most once per operation in every reachable state of the driver LTS and that the submission-queue overflow loop is lossless for every capacity >= 1 and every entry sequence; tied to the code by history acceptance (extracted LTS) and an oracle that checks which bytes went to which operation on the real driver (distinct payloads, harness-chosen readiness order, SQ capacities 1..1024, both drivers). Result slot and waker (ResultSlot.v): the completion invokes the waker registered LAST, one result, taken once. Polling driver queues (PollDrv.v): armed iff waiting in every reachable state, an unusable readiness is the identity (recognised again next time), a usable one completes the head (FIFO) — both models are history acceptors in the extracted driver, so every set_waker/wake and every poller call of the real driver is predicted.",
+        note="Partial: what the OS did for an operation is an environment input; routing of the OS result to its own operation is checked on the real driver by the oracle (FINAL result = stored result, chunks of a stream never overlap or swap), not proved. Multi-descriptor operations (splice) are in the PollDrv model (tracking marks) but are not generated by the harness. No axioms.",
         technique="Coq invariant proof over an LTS + bounded-queue lemma + history acceptance and result-routing oracle")
     prop_file = "prop/C02.v"
     gen = gen_drv.make("c02")
